@@ -69,6 +69,9 @@ automata *init_automata_mapping(void) {
 
 automata *switch_state_mapping(automata *autom, int input, char *debug) {
     (void)debug;
+    if (!autom) {
+        return NULL; /* constructor failed: the daemons hand its result over unchecked */
+    }
     uint8_t new_state = autom->current_state;
     state *current_state = &autom->states_table[autom->current_state];
     bool timeout = false;
@@ -156,6 +159,9 @@ automata *init_automata_enumeration(void) {
 }
 
 automata *switch_state_enumeration(automata *autom, int input, char *debug) {
+    if (!autom) {
+        return NULL;
+    }
     uint8_t new_state = autom->current_state;
     state *current_state = &autom->states_table[autom->current_state];
 
@@ -234,6 +240,9 @@ automata *init_automata_session(void) {
 }
 
 automata *switch_state_session(automata *autom, int input, char *debug) {
+    if (!autom) {
+        return NULL;
+    }
     uint8_t new_state = autom->current_state;
     state *current_state = &autom->states_table[autom->current_state];
     bool timeout = false;
